@@ -2,6 +2,9 @@
 # Applies each behaviour-preserving change in benign/<id>/patch.diff to /repo (never committed), runs every quick
 # check and expects no VIOLATION; restores /repo. usage: tools/benign_eval.sh [ids...]
 cd "$(dirname "$0")/.."
+# the evidence files belong to the unchanged tree: keep them
+EVBAK=$(mktemp -d /dev/shm/evbak.XXXXXX); cp -a evidence/. $EVBAK/ 2>/dev/null
+trap 'cp -a $EVBAK/. evidence/ 2>/dev/null; rm -rf $EVBAK' EXIT
 ids="${*:-$(ls benign)}"
 for k in $ids; do
   if ! git -C /repo diff --quiet; then echo "HARNESS-ERROR /repo has uncommitted changes"; exit 2; fi
